@@ -307,16 +307,23 @@ func (v *Validator) getActionsInSet(uids []types.EntityUID) []types.EntityUID {
 }
 
 func (v *Validator) isActionDescendant(actionUID, ancestorUID types.EntityUID) bool {
-	action := v.schema.Actions[actionUID]
-	for parent := range action.Entity.Parents.All() {
-		if parent == ancestorUID {
-			return true
+	// The action hierarchy is a DAG: without a visited set a group reachable along many paths
+	// (a in [b, c]; b in [d]; c in [d]; ...) is searched once per path, which is exponential in the depth.
+	visited := make(map[types.EntityUID]bool)
+	var walk func(types.EntityUID) bool
+	walk = func(uid types.EntityUID) bool {
+		if visited[uid] {
+			return false
 		}
-		if v.isActionDescendant(parent, ancestorUID) {
-			return true
+		visited[uid] = true
+		for parent := range v.schema.Actions[uid].Entity.Parents.All() {
+			if parent == ancestorUID || walk(parent) {
+				return true
+			}
 		}
+		return false
 	}
-	return false
+	return walk(actionUID)
 }
 
 func (v *Validator) getEntityTypesIn(target types.EntityType) []types.EntityType {
